@@ -381,7 +381,9 @@ int process_start(pid_t *process,
       // child process when we're inheriting the parent standard streams. If we
       // don't call `exec`, the caller is responsible for closing the redirect
       // and exit handles.
-      if (redirect[i] != i) {
+      // A handle that is itself one of the standard streams (the parent's
+      // stdout used for the child's stdout and stderr) has to stay open.
+      if (redirect[i] > STDERR_FILENO) {
         // Make sure the pipe is closed when we call exec.
         r = handle_cloexec(redirect[i], true);
         if (r < 0) {
